@@ -1,5 +1,5 @@
 CONSTANTS
-  Sigma = {"0", "1", "9", "b", "e", "_", ".", "+", "-", "x", "o", "p", "i"}
+  Sigma = {"0", "1", "b", "e", "_", ".", "-", "x", "o", "p", "i"}
   L = 5
   LH = 5
   StrMode = "quick"
